@@ -21,6 +21,22 @@ pub(crate) fn read_nint<R: BufRead + Seek>(raw: &mut Deserializer<R>) -> Result<
     }
 }
 
+/// Writes the CBOR negative integer `value` (any value in -2^64..=-1) with the shortest head.
+/// `cbor_event`'s `write_negative_integer` takes an `i64` and computes `-value - 1`, which overflows for
+/// `i64::MIN` (-2^63) and cannot express anything below it, so the head is built from the unsigned
+/// argument `-1 - value` instead: a nint head is the uint head of its argument with major type 1.
+pub(crate) fn write_nint<'se, W: Write>(
+    serializer: &'se mut Serializer<W>,
+    value: i128,
+) -> cbor_event::Result<&'se mut Serializer<W>> {
+    let argument = (-1 - value) as u64;
+    let mut head = Serializer::new_vec();
+    head.write_unsigned_integer(argument)?;
+    let mut bytes = head.finalize();
+    bytes[0] |= 0x20;
+    serializer.write_raw_bytes(&bytes)
+}
+
 pub(super) fn deserialize_and_check_index<R: BufRead + Seek>(
     raw: &mut Deserializer<R>,
     desired_index: Option<u64>,
